@@ -102,8 +102,11 @@ namespace BitSerializer::Convert::Detail
 		{
 			if constexpr (TDivRatio::num == 1)
 			{
-				const auto v = static_cast<TTargetRep>(static_cast<TOpRep>(duration.count()) / static_cast<TOpRep>(TDivRatio::den));
-				if (static_cast<TRep>(v * TDivRatio::den) != duration.count()) {
+				// (multiplied back in the wide type, where |q * den| <= |count| cannot overflow; the narrow result is checked by casting back)
+				const auto q = static_cast<TOpRep>(duration.count()) / static_cast<TOpRep>(TDivRatio::den);
+				const auto v = static_cast<TTargetRep>(q);
+				if (q * static_cast<TOpRep>(TDivRatio::den) != static_cast<TOpRep>(duration.count()) ||
+					static_cast<TOpRep>(v) != q || (q > 0 && v < 0) || (q < 0 && v > 0)) {
 					throw std::out_of_range("Precision of target duration is not enough");
 				}
 				return TTarget(v);
@@ -659,7 +662,8 @@ namespace BitSerializer::Convert::Detail
 						{
 							constexpr uint64_t maxI64Negative = 9223372036854775808u;
 							if (value <= maxI64Negative) {
-								SafeAddDuration(duration, transformToDuration(-static_cast<int64_t>(value), sym, isDatePart));
+								// (negated as unsigned: -INT64_MIN is not representable)
+								SafeAddDuration(duration, transformToDuration(static_cast<int64_t>(0 - value), sym, isDatePart));
 							}
 							else {
 								throw std::out_of_range("ISO duration contains too big number");
